@@ -49,22 +49,25 @@ class ProcessingStateConditionBase:
         except KeyError:
             return False
 
-        if self.op == "eq":
-            return bool(state_val == self.val)
-        elif self.op == "ne":
-            return bool(state_val != self.val)
-        elif self.op == "gte":
-            return bool(state_val >= self.val)
-        elif self.op == "gt":
-            return bool(state_val > self.val)
-        elif self.op == "lte":
-            return bool(state_val <= self.val)
-        elif self.op == "lt":
-            return bool(state_val < self.val)
-        else:
-            raise SigmaConfigurationError(
-                f"Invalid operation '{self.op}' in rule state condition {str(self)}."
-            )
+        try:
+            if self.op == "eq":
+                return bool(state_val == self.val)
+            elif self.op == "ne":
+                return bool(state_val != self.val)
+            elif self.op == "gte":
+                return bool(state_val >= self.val)
+            elif self.op == "gt":
+                return bool(state_val > self.val)
+            elif self.op == "lte":
+                return bool(state_val <= self.val)
+            elif self.op == "lt":
+                return bool(state_val < self.val)
+            else:
+                raise SigmaConfigurationError(
+                    f"Invalid operation '{self.op}' in rule state condition {str(self)}."
+                )
+        except TypeError:  # values that have no order (a string and a number): condition doesn't hold
+            return False
 
 
 @dataclass
